@@ -97,6 +97,66 @@ func three() (*int, bool, error) { return nil, false, nil }
 
 type fnT func(*int) *int
 
+// generic functions whose range operand is a type parameter (basic, string, slice, map, func core types)
+type count interface {
+	~int
+	String() string
+}
+
+func sumTo[N ~int](n N) int {
+	t := 0
+	for k := range n {
+		t += int(k)
+	}
+	return t
+}
+
+func labels[C count](c C) string {
+	out := ""
+	for k := range c {
+		out += k.String()
+	}
+	return out
+}
+
+func offsets[S ~string](s S) int {
+	t := 0
+	for k := range s {
+		t += k
+	}
+	return t
+}
+
+func firsts[S ~[]*int](s S) int {
+	for _, v := range s {
+		if v != nil {
+			return *v
+		}
+	}
+	return 0
+}
+
+func keys[M ~map[string]*int](m M) int {
+	t := 0
+	for k := range m {
+		t += len(k)
+	}
+	return t
+}
+
+func walk[F ~func(func(*int) bool)](f F) {
+	for v := range f {
+		_ = v
+	}
+}
+
+// package-level variables initialised by calls that are not calls of declared functions
+var defaults = struct{ lookup func(string) *int }{lookup: func(string) *int { return nil }}
+var gfield = defaults.lookup("x")
+var gconv = mySlice(nil)
+var gmeth = (&list{}).All
+var gfunc = fnT(nil)
+
 var garr [3]*int
 var gs string
 
